@@ -40,6 +40,18 @@ type logCapture struct {
 	lines     int
 	lastFatal string
 	marks     []string // lines containing logMark, most recent last
+	nmarks    int      // number of lines containing logMark so far
+}
+
+// marked returns the number of marked lines logged so far and the last one.
+func (lc *logCapture) marked() (int, string) {
+	lc.mu.Lock()
+	defer lc.mu.Unlock()
+	last := ""
+	if len(lc.marks) > 0 {
+		last = lc.marks[len(lc.marks)-1]
+	}
+	return lc.nmarks, last
 }
 
 const logMark = "VERIFLOG"
@@ -53,6 +65,7 @@ func (lc *logCapture) Write(p []byte) (int, error) {
 		lc.lastFatal = strings.TrimSpace(s[i+7:])
 	}
 	if strings.Contains(s, logMark) {
+		lc.nmarks++
 		if len(lc.marks) > 64 {
 			lc.marks = lc.marks[32:]
 		}
